@@ -54,7 +54,10 @@ def Q (n : Nat) (A : Nat → Nat → Rat) (o i_ : Nat → Rat) (γ : Rat) (c : N
 /-- The objective of each kind, written from the documentation on the input matrix:
     Dugué  `(1/w) Σ (A_ij − γ d⁺_i d⁻_j / w) δ`   (Barber's modularity for a biadjacency matrix),
     Newman `(1/w) Σ (A_ij − γ d_i d_j / w) δ`      (`d` = out-weights),
-    Potts  `(1/w) Σ A_ij δ − γ Σ δ / n²`. -/
+    Potts  `(1/w) Σ A_ij δ − γ Σ δ / n²`.
+    Newman on a *directed* square input: `d` is the out-weight of the input for both factors, as the code does
+    (`in_weights = out_weights.copy()`); the documentation only says "degree" — the reading `A + Aᵀ`, `d⁺ + d⁻`
+    has another null-model term and is not what the optimiser's logged increases refer to. -/
 def objective (kind : Kind) (n : Nat) (A : Nat → Nat → Rat) (γ : Rat) (c : Nat → Nat) : Rat :=
   let w := totalWeight n A
   match kind with
